@@ -395,3 +395,29 @@ func isTimeout(err error) bool {
 	_, ok := err.(verifTimeout)
 	return ok
 }
+
+// C10 / C01 — the server's resumption flight as the honest DTLCP server sends it: ServerHello,
+// ChangeCipherSpec and Finished in ONE datagram. The client, reading the ServerHello (nothing negotiated yet,
+// version not yet fixed), must not fail on the records that follow it in the same datagram.
+//
+//verif:harness props=C10,C01 paths=200 reach=read
+func VerifHarness_C10_dtlcp_resumption_flight() {
+	sh := verifNondetBytes("serverHelloRecord", 13+16)
+	sh[0], sh[1], sh[2], sh[3], sh[4] = byte(recordTypeHandshake), 1, 1, 0, 0
+	sh[5], sh[6], sh[7], sh[8], sh[9], sh[10] = 0, 0, 0, 0, 0, 0
+	sh[11], sh[12] = 0, 16
+	ccs := []byte{byte(recordTypeChangeCipherSpec), 1, 1, 0, 0, 0, 0, 0, 0, 0, 1, 0, 1, 1}
+	fin := verifNondetBytes("finishedRecord", 13+4)
+	fin[0], fin[1], fin[2], fin[3], fin[4] = byte(recordTypeHandshake), 1, 1, 0, 1
+	fin[5], fin[6], fin[7], fin[8], fin[9], fin[10] = 0, 0, 0, 0, 0, 0
+	fin[11], fin[12] = 0, 4
+	d := append(append(append([]byte(nil), sh...), ccs...), fin...)
+	t := &verifPConn{in: [][]byte{d}}
+	c := &Conn{pconn: t, remoteAddr: verifAddr{}, config: &Config{Rand: verifRandSrc{}}, isClient: true}
+	c.hsState.Store(int32(stateWaiting))
+	c.replayWindow = newReplayWindow(64)
+	err := c.readRecordOrCCS(false)
+	verifReach("read")
+	verifTag("resumptionFlight", 1)
+	verifAssert("C10.dtlcp.resumptionFlightIsReadable", err == nil && c.in.err == nil && c.handBuf.Len() == 16)
+}
